@@ -135,6 +135,227 @@ Proof. exact C06_tie.tie_pos_pack. Qed.
 Theorem C06_position_unpack_translated : forall v : Z, (- 2 ^ 63 <= v < 2 ^ 63)%Z -> pos_unpack v = VPos (Funcs.packet_Position_ReadFrom_x v) (Funcs.packet_Position_ReadFrom_y v) (Funcs.packet_Position_ReadFrom_z v).
 Proof. exact C06_tie.tie_pos_unpack. Qed.
 
+
+(* ---- tie to the source, phase 3: the field codecs of net/packet/types.go TRANSLATED statement by statement
+   by tools/gotrans/c06.go on every run (coq/Gen/C06gen.v), proved equal to the model for ALL values / ALL
+   byte inputs; the statement skeletons of the reflection-heavy functions compared with the recorded ones;
+   the model's Ary and NBTField readers as the INTERPRETATION of the generated skeletons; NBTField. *)
+From GoMC Require Gen.C06gen Proofs.C06_tie_w Proofs.C06_tie_r Proofs.C06_skel_expected Proofs.C06_skel.
+From GoMC Require Import Model.C06_syntax.
+Import C06_tie_w C06_tie_r C06_skel_expected C06_skel.
+Local Open Scope Z_scope.
+
+(* WRITERS: (n, err, bytes handed to w.Write) of the translated T.WriteTo under an accepting writer
+   = (count, nil, image) of the model, for every value *)
+Theorem C06_Boolean_write_translated : forall b : bool, C06gen.packet_Boolean_WriteTo_io b = wimg (wr TBool (VB b)).
+Proof. exact tie_Boolean_write. Qed.
+Theorem C06_Byte_write_translated : forall z : Z, C06gen.packet_Byte_WriteTo_io z = wimg (wr TByte (VZ z)).
+Proof. exact tie_Byte_write. Qed.
+Theorem C06_UnsignedByte_write_translated : forall z : Z, C06gen.packet_UnsignedByte_WriteTo_io z = wimg (wr TUByte (VZ z)).
+Proof. exact tie_UnsignedByte_write. Qed.
+Theorem C06_Short_write_translated : forall z : Z, C06gen.packet_Short_WriteTo_io z = wimg (wr TShort (VZ z)).
+Proof. exact tie_Short_write. Qed.
+Theorem C06_UnsignedShort_write_translated : forall z : Z, C06gen.packet_UnsignedShort_WriteTo_io z = wimg (wr TUShort (VZ z)).
+Proof. exact tie_UnsignedShort_write. Qed.
+Theorem C06_Int_write_translated : forall z : Z, C06gen.packet_Int_WriteTo_io z = wimg (wr TInt (VZ z)).
+Proof. exact tie_Int_write. Qed.
+Theorem C06_Long_write_translated : forall z : Z, C06gen.packet_Long_WriteTo_io z = wimg (wr TLong (VZ z)).
+Proof. exact tie_Long_write. Qed.
+Theorem C06_Float_write_translated : forall bits : Z, C06gen.packet_Float_WriteTo_io bits = wimg (wr TFloat (VZ bits)).
+Proof. exact tie_Float_write. Qed.
+Theorem C06_Double_write_translated : forall bits : Z, C06gen.packet_Double_WriteTo_io bits = wimg (wr TDouble (VZ bits)).
+Proof. exact tie_Double_write. Qed.
+Theorem C06_Angle_write_translated : forall z : Z, C06gen.packet_Angle_WriteTo_io z = wimg (wr TAngle (VZ z)).
+Proof. exact tie_Angle_write. Qed.
+Theorem C06_VarInt_write_translated : forall z : Z, C06gen.packet_VarInt_WriteTo_io z = wimg (wr TVarInt (VZ z)).
+Proof. exact tie_VarInt_write. Qed.
+Theorem C06_VarLong_write_translated : forall z : Z, C06gen.packet_VarLong_WriteTo_io z = wimg (wr TVarLong (VZ z)).
+Proof. exact tie_VarLong_write. Qed.
+Theorem C06_Position_write_translated : forall x y z : Z, C06gen.packet_Position_WriteTo_io x z y = wimg (wr TPosition (VPos x y z)).
+Proof. exact tie_Position_write. Qed.
+Theorem C06_UUID_write_translated : forall bs sp, (lenN bs < 2 ^ 63)%N -> C06gen.packet_UUID_WriteTo_io (map Z.of_N bs) = wimg (wr TUUID (VBytes bs sp)).
+Proof. exact (fun bs _ => tie_UUID_write bs). Qed.
+Theorem C06_String_write_translated : forall bs sp, (lenN bs < 2 ^ 62)%N -> C06gen.packet_String_WriteTo_io (map Z.of_N bs) = wimg (wr TString (VBytes bs sp)).
+Proof. exact (fun bs _ => tie_String_write bs). Qed.
+Theorem C06_ByteArray_write_translated : forall bs sp, (lenN bs < 2 ^ 62)%N -> C06gen.packet_ByteArray_WriteTo_io (map Z.of_N bs) = wimg (wr TByteArray (VBytes bs sp)).
+Proof. exact (fun bs _ => tie_lenbytes_write bs). Qed.
+Theorem C06_PluginMessageData_write_translated : forall bs, (lenN bs < 2 ^ 63)%N -> C06gen.packet_PluginMessageData_WriteTo_io (map Z.of_N bs) = wimg (w_raw bs).
+Proof. exact tie_PluginMessageData_write. Qed.
+Theorem C06_FixedBitSet_write_translated : forall bs, (lenN bs < 2 ^ 63)%N -> C06gen.packet_FixedBitSet_WriteTo_io (map Z.of_N bs) = wimg (w_raw bs).
+Proof. exact tie_FixedBitSet_write. Qed.
+Theorem C06_BitSet_write_translated : forall zs sp, (lenN zs < 2 ^ 59)%N ->
+  C06gen.packet_BitSet_WriteTo_io zs = wimg (wr TBitSet (VList (map VZ zs) sp)).
+Proof. exact tie_BitSet_write. Qed.
+
+(* READERS: the translated T.ReadFrom (a Base.Dec.dec term) runs like the model's reader on every input made
+   of bytes - outcome class, error class, value, count, rest *)
+Theorem C06_Boolean_read_translated : forall fuel old s, all_bytes s ->
+  fmapr inj_b (run_flat C06gen.packet_Boolean_ReadFrom_io s) = run_flat (read_f fuel TBool old) s.
+Proof. intros fuel old s. exact (tie_Boolean_read s). Qed.
+Theorem C06_Byte_read_translated : forall fuel old s, all_bytes s ->
+  fmapr inj_z (run_flat C06gen.packet_Byte_ReadFrom_io s) = run_flat (read_f fuel TByte old) s.
+Proof. intros fuel old s. exact (tie_Byte_read s). Qed.
+Theorem C06_UnsignedByte_read_translated : forall fuel old s, all_bytes s ->
+  fmapr inj_z (run_flat C06gen.packet_UnsignedByte_ReadFrom_io s) = run_flat (read_f fuel TUByte old) s.
+Proof. intros fuel old s. exact (tie_UnsignedByte_read s). Qed.
+Theorem C06_Short_read_translated : forall fuel old s, all_bytes s ->
+  fmapr inj_z (run_flat C06gen.packet_Short_ReadFrom_io s) = run_flat (read_f fuel TShort old) s.
+Proof. intros fuel old s. exact (tie_Short_read s). Qed.
+Theorem C06_UnsignedShort_read_translated : forall fuel old s, all_bytes s ->
+  fmapr inj_z (run_flat C06gen.packet_UnsignedShort_ReadFrom_io s) = run_flat (read_f fuel TUShort old) s.
+Proof. intros fuel old s. exact (tie_UnsignedShort_read s). Qed.
+Theorem C06_Int_read_translated : forall fuel old s, all_bytes s ->
+  fmapr inj_z (run_flat C06gen.packet_Int_ReadFrom_io s) = run_flat (read_f fuel TInt old) s.
+Proof. intros fuel old s. exact (tie_Int_read s). Qed.
+Theorem C06_Long_read_translated : forall fuel old s, all_bytes s ->
+  fmapr inj_z (run_flat C06gen.packet_Long_ReadFrom_io s) = run_flat (read_f fuel TLong old) s.
+Proof. intros fuel old s. exact (tie_Long_read s). Qed.
+Theorem C06_Float_read_translated : forall fuel old s, all_bytes s ->
+  fmapr inj_z (run_flat C06gen.packet_Float_ReadFrom_io s) = run_flat (read_f fuel TFloat old) s.
+Proof. intros fuel old s. exact (tie_Float_read s). Qed.
+Theorem C06_Double_read_translated : forall fuel old s, all_bytes s ->
+  fmapr inj_z (run_flat C06gen.packet_Double_ReadFrom_io s) = run_flat (read_f fuel TDouble old) s.
+Proof. intros fuel old s. exact (tie_Double_read s). Qed.
+Theorem C06_Angle_read_translated : forall fuel old s, all_bytes s ->
+  fmapr inj_z (run_flat C06gen.packet_Angle_ReadFrom_io s) = run_flat (read_f fuel TAngle old) s.
+Proof. intros fuel old s. exact (tie_Angle_read s). Qed.
+Theorem C06_UUID_read_translated : forall fuel old s, all_bytes s ->
+  fmapr inj_bytes (run_flat C06gen.packet_UUID_ReadFrom_io s) = run_flat (read_f fuel TUUID old) s.
+Proof. intros fuel old s. exact (tie_UUID_read s). Qed.
+Theorem C06_Position_read_translated : forall fuel old s, all_bytes s ->
+  fmapr inj_pos (run_flat C06gen.packet_Position_ReadFrom_io s) = run_flat (read_f fuel TPosition old) s.
+Proof. intros fuel old s. exact (tie_Position_read s). Qed.
+Theorem C06_String_read_translated : forall fuel old s, all_bytes s ->
+  fmapr inj_bytes (run_flat (C06gen.packet_String_ReadFrom_io varint_rd) s) = run_flat (read_f fuel TString old) s.
+Proof. intros fuel old s. exact (tie_String_read s). Qed.
+Theorem C06_ByteArray_read_translated : forall fuel bs0 sp0 s, all_bytes s ->
+  fmapr inj_slice (run_flat (C06gen.packet_ByteArray_ReadFrom_io varint_rd (map Z.of_N bs0) (map Z.of_N sp0)) s)
+  = run_flat (read_f fuel TByteArray (VBytes bs0 sp0)) s.
+Proof. intros fuel bs0 sp0 s. exact (tie_ByteArray_read bs0 sp0 s). Qed.
+Theorem C06_BitSet_read_translated : forall fuel old (b sp : list Z) s, all_bytes s ->
+  (forall l n rest, run_flat read32 s = FOk (l, n) rest -> (Z.to_nat l <= fuel)%nat) ->
+  fmapr inj_bitset (run_flat (C06gen.packet_BitSet_ReadFrom_io varint_rd b sp) s) = run_flat (read_f fuel TBitSet old) s.
+Proof. exact tie_BitSet_read. Qed.
+Theorem C06_FixedBitSet_read_translated : forall old s, all_bytes s -> (lenN old < 2 ^ 63)%N ->
+  fmapr inj_fbs (run_flat (C06gen.packet_FixedBitSet_ReadFrom_io (map Z.of_N old)) s) = run_flat (r_fixedbitset old) s.
+Proof. exact tie_FixedBitSet_read. Qed.
+
+(* SKELETONS: the bodies rendered from the source are the recorded ones *)
+Theorem C06_skeleton_readByte : C06gen.skel_readByte = expected_readByte.
+Proof. exact skel_readByte_ok. Qed.
+Theorem C06_skeleton_PluginMessageData_ReadFrom : C06gen.skel_PluginMessageData_ReadFrom = expected_PluginMessageData_ReadFrom.
+Proof. exact skel_PluginMessageData_ReadFrom_ok. Qed.
+Theorem C06_skeleton_NBTField_WriteTo : C06gen.skel_NBTField_WriteTo = expected_NBTField_WriteTo.
+Proof. exact skel_NBTField_WriteTo_ok. Qed.
+Theorem C06_skeleton_NBTField_ReadFrom : C06gen.skel_NBTField_ReadFrom = expected_NBTField_ReadFrom.
+Proof. exact skel_NBTField_ReadFrom_ok. Qed.
+Theorem C06_skeleton_countingWriter_Write : C06gen.skel_countingWriter_Write = expected_countingWriter_Write.
+Proof. exact skel_countingWriter_Write_ok. Qed.
+Theorem C06_skeleton_countingReader_Read : C06gen.skel_countingReader_Read = expected_countingReader_Read.
+Proof. exact skel_countingReader_Read_ok. Qed.
+Theorem C06_skeleton_NBT : C06gen.skel_NBT = expected_NBT.
+Proof. exact skel_NBT_ok. Qed.
+Theorem C06_skeleton_Ary_WriteTo : C06gen.skel_Ary_WriteTo = expected_Ary_WriteTo.
+Proof. exact skel_Ary_WriteTo_ok. Qed.
+Theorem C06_skeleton_Ary_ReadFrom : C06gen.skel_Ary_ReadFrom = expected_Ary_ReadFrom.
+Proof. exact skel_Ary_ReadFrom_ok. Qed.
+Theorem C06_skeleton_Array : C06gen.skel_Array = expected_Array.
+Proof. exact skel_Array_ok. Qed.
+Theorem C06_skeleton_Opt_has : C06gen.skel_Opt_has = expected_Opt_has.
+Proof. exact skel_Opt_has_ok. Qed.
+Theorem C06_skeleton_Opt_WriteTo : C06gen.skel_Opt_WriteTo = expected_Opt_WriteTo.
+Proof. exact skel_Opt_WriteTo_ok. Qed.
+Theorem C06_skeleton_Opt_ReadFrom : C06gen.skel_Opt_ReadFrom = expected_Opt_ReadFrom.
+Proof. exact skel_Opt_ReadFrom_ok. Qed.
+Theorem C06_skeleton_Option_WriteTo : C06gen.skel_Option_WriteTo = expected_Option_WriteTo.
+Proof. exact skel_Option_WriteTo_ok. Qed.
+Theorem C06_skeleton_Option_ReadFrom : C06gen.skel_Option_ReadFrom = expected_Option_ReadFrom.
+Proof. exact skel_Option_ReadFrom_ok. Qed.
+Theorem C06_skeleton_OptionDecoder_ReadFrom : C06gen.skel_OptionDecoder_ReadFrom = expected_OptionDecoder_ReadFrom.
+Proof. exact skel_OptionDecoder_ReadFrom_ok. Qed.
+Theorem C06_skeleton_OptionEncoder_WriteTo : C06gen.skel_OptionEncoder_WriteTo = expected_OptionEncoder_WriteTo.
+Proof. exact skel_OptionEncoder_WriteTo_ok. Qed.
+Theorem C06_skeleton_Tuple_WriteTo : C06gen.skel_Tuple_WriteTo = expected_Tuple_WriteTo.
+Proof. exact skel_Tuple_WriteTo_ok. Qed.
+Theorem C06_skeleton_Tuple_ReadFrom : C06gen.skel_Tuple_ReadFrom = expected_Tuple_ReadFrom.
+Proof. exact skel_Tuple_ReadFrom_ok. Qed.
+Theorem C06_skeleton_CreateByteReader : C06gen.skel_CreateByteReader = expected_CreateByteReader.
+Proof. exact skel_CreateByteReader_ok. Qed.
+Theorem C06_skeleton_byteReaderWrapper_ReadByte : C06gen.skel_byteReaderWrapper_ReadByte = expected_byteReaderWrapper_ReadByte.
+Proof. exact skel_byteReaderWrapper_ReadByte_ok. Qed.
+Theorem C06_skeleton_Marshal : C06gen.skel_Marshal = expected_Marshal.
+Proof. exact skel_Marshal_ok. Qed.
+Theorem C06_skeleton_Packet_Scan : C06gen.skel_Packet_Scan = expected_Packet_Scan.
+Proof. exact skel_Packet_Scan_ok. Qed.
+Theorem C06_skeleton_Builder_WriteField : C06gen.skel_Builder_WriteField = expected_Builder_WriteField.
+Proof. exact skel_Builder_WriteField_ok. Qed.
+Theorem C06_skeleton_Builder_Packet : C06gen.skel_Builder_Packet = expected_Builder_Packet.
+Proof. exact skel_Builder_Packet_ok. Qed.
+
+(* the model's Ary reader (every prefix type, element reader, destination state) and the NBTField reader
+   (every decoder) ARE the interpretation of the skeletons generated from the source *)
+Theorem C06_ary_read_is_skeleton : forall fuel l re zero old,
+  ary_read fuel l re zero old (snd C06gen.skel_Ary_ReadFrom) (ast0 zero) = r_ary fuel l re zero old.
+Proof. exact Ary_ReadFrom_is_skel. Qed.
+Theorem C06_nbtfield_read_is_skeleton : forall eEND A (d : dec A),
+  nbt_read eEND A d (snd C06gen.skel_NBTField_ReadFrom) (nst0 A) = r_nbtfield eEND d.
+Proof. exact NBTField_ReadFrom_is_skel. Qed.
+Theorem C06_option_read_is_skeleton : forall re zero old,
+  option_read re (snd C06gen.skel_Option_ReadFrom) (ost0 zero old) = r_option re zero old
+  /\ option_read re (snd C06gen.skel_OptionDecoder_ReadFrom) (ost0 zero old) = r_option re zero old.
+Proof. intros. split; [apply Option_ReadFrom_is_skel|apply OptionDecoder_ReadFrom_is_skel]. Qed.
+Theorem C06_option_write_is_skeleton : forall e h x,
+  option_write (wr e) h x (snd C06gen.skel_Option_WriteTo) = Some (wr (TOption e) (VOpt h x))
+  /\ option_write (wr e) h x (snd C06gen.skel_OptionEncoder_WriteTo) = Some (wr (TOption e) (VOpt h x)).
+Proof. exact Option_WriteTo_is_skel. Qed.
+Theorem C06_opt_is_skeleton : forall fuel has e old v,
+  opt_interp m_read (snd C06gen.skel_Opt_ReadFrom) has (read_f fuel e old) (Ret (old, 0%N)) = Some (read_f fuel (TOpt has e) old)
+  /\ opt_interp m_write (snd C06gen.skel_Opt_WriteTo) has (wr e v) ([], 0%N) = Some (wr (TOpt has e) v).
+Proof. exact Opt_is_skel. Qed.
+Theorem C06_ary_write_is_skeleton : forall l e xs sp,
+  ary_write l (wr e) xs (snd C06gen.skel_Ary_WriteTo) 0%Z = Some (wr (TAry l e) (VList xs sp)).
+Proof. exact Ary_WriteTo_is_skel. Qed.
+Theorem C06_scan_is_skeleton : forall fuel fs s,
+  run_flat (scan_interp fuel (snd C06gen.skel_Packet_Scan) fs []) s = run_flat (scan fuel fs) s.
+Proof. exact Packet_Scan_is_skel. Qed.
+Theorem C06_marshal_is_skeleton : forall fs, marshal_interp (snd C06gen.skel_Marshal) fs [] = Some (marshal fs).
+Proof. exact Marshal_is_skel. Qed.
+
+(* NBTField: count = bytes consumed on every successful read (ErrEND endings included); round trip through
+   the counting wrapper for ANY robust NBT decoder; the ErrEND rule on the image of a nil value; the
+   countingWriter's count = bytes written *)
+Theorem C06_nbtfield_count : forall eEND A (d : dec A), robust d -> forall s r n rest,
+  run_flat (r_nbtfield eEND d) s = FOk (r, n) rest -> exists c, s = c ++ rest /\ lenN c = n.
+Proof. exact nbtfield_count. Qed.
+Theorem C06_nbtfield_roundtrip : forall eEND A (d : dec A), robust d -> forall img rest v,
+  run_flat d (img ++ rest) = FOk v rest ->
+  run_flat (r_nbtfield eEND d) (img ++ rest) = FOk (Some v, lenN img) rest.
+Proof. exact nbtfield_roundtrip. Qed.
+Theorem C06_nbtfield_end : forall eEND A (k : N -> dec A) rest, k 0%N = Fail eEND ->
+  run_flat (r_nbtfield eEND (ReadByte k)) (fst (w_nbtfield None) ++ rest) = FOk (None, 1%N) rest.
+Proof. exact nbtfield_end. Qed.
+Theorem C06_nbtfield_write_count : forall enc, snd (w_nbtfield enc) = lenN (fst (w_nbtfield enc)).
+Proof. exact w_nbtfield_count. Qed.
+
+(* non-vacuity: the translated definitions compute *)
+Example C06_ex_translated_write : C06gen.packet_Short_WriteTo_io (-2) = (2, 0%N, [255; 254])
+  /\ C06gen.packet_Position_WriteTo_io (-1) 3 (-2) = (8, 0%N, [255; 255; 255; 192; 0; 0; 63; 254])
+  /\ C06gen.packet_String_WriteTo_io [104; 105] = (3, 0%N, [2; 104; 105]).
+Proof. repeat split; vm_compute; reflexivity. Qed.
+Example C06_ex_translated_read :
+  run_flat C06gen.packet_Short_ReadFrom_io [255; 254; 9]%N = FOk (-2, 2) [9%N]
+  /\ run_flat (C06gen.packet_String_ReadFrom_io varint_rd) [2; 104; 105; 7]%N = FOk ([104; 105], 3) [7%N]
+  /\ run_flat (C06gen.packet_String_ReadFrom_io varint_rd) [255; 255; 255; 255; 15]%N = FErr 3%N
+  /\ run_flat (C06gen.packet_ByteArray_ReadFrom_io varint_rd [1] [2; 3]) [2; 8; 9]%N = FOk (([8; 9], [3]), 3) [].
+Proof. repeat split; vm_compute; reflexivity. Qed.
+Example C06_ex_translated_bitset :
+  run_flat (C06gen.packet_BitSet_ReadFrom_io varint_rd [7; 8; 9] [5]) [1; 0;0;0;0;0;0;1;2; 77]%N = FOk (([258], [8; 9; 5]), 9) [77%N]
+  /\ C06gen.packet_BitSet_WriteTo_io [258] = (9, 0%N, [1; 0;0;0;0;0;0;1;2]).
+Proof. split; vm_compute; reflexivity. Qed.
+Example C06_ex_nbt_end : run_flat (r_nbtfield 7 (ReadByte (fun id => if (id =? 0)%N then Fail 7 else Ret id))) [0; 5]%N
+  = FOk (None, 1%N) [5%N].
+Proof. vm_compute. reflexivity. Qed.
+
 Print Assumptions C06_roundtrip.
 Print Assumptions C06_layout.
 Print Assumptions C06_position_layout.
@@ -153,3 +374,75 @@ Print Assumptions C06_fixedbitset.
 Print Assumptions C06_plugin.
 Print Assumptions C06_position_pack_translated.
 Print Assumptions C06_position_unpack_translated.
+Print Assumptions C06_Boolean_write_translated.
+Print Assumptions C06_Byte_write_translated.
+Print Assumptions C06_UnsignedByte_write_translated.
+Print Assumptions C06_Short_write_translated.
+Print Assumptions C06_UnsignedShort_write_translated.
+Print Assumptions C06_Int_write_translated.
+Print Assumptions C06_Long_write_translated.
+Print Assumptions C06_Float_write_translated.
+Print Assumptions C06_Double_write_translated.
+Print Assumptions C06_Angle_write_translated.
+Print Assumptions C06_VarInt_write_translated.
+Print Assumptions C06_VarLong_write_translated.
+Print Assumptions C06_Position_write_translated.
+Print Assumptions C06_UUID_write_translated.
+Print Assumptions C06_String_write_translated.
+Print Assumptions C06_ByteArray_write_translated.
+Print Assumptions C06_PluginMessageData_write_translated.
+Print Assumptions C06_FixedBitSet_write_translated.
+Print Assumptions C06_Boolean_read_translated.
+Print Assumptions C06_Byte_read_translated.
+Print Assumptions C06_UnsignedByte_read_translated.
+Print Assumptions C06_Short_read_translated.
+Print Assumptions C06_UnsignedShort_read_translated.
+Print Assumptions C06_Int_read_translated.
+Print Assumptions C06_Long_read_translated.
+Print Assumptions C06_Float_read_translated.
+Print Assumptions C06_Double_read_translated.
+Print Assumptions C06_Angle_read_translated.
+Print Assumptions C06_UUID_read_translated.
+Print Assumptions C06_Position_read_translated.
+Print Assumptions C06_String_read_translated.
+Print Assumptions C06_ByteArray_read_translated.
+Print Assumptions C06_BitSet_read_translated.
+Print Assumptions C06_BitSet_write_translated.
+Print Assumptions C06_FixedBitSet_read_translated.
+Print Assumptions C06_skeleton_readByte.
+Print Assumptions C06_skeleton_PluginMessageData_ReadFrom.
+Print Assumptions C06_skeleton_NBTField_WriteTo.
+Print Assumptions C06_skeleton_NBTField_ReadFrom.
+Print Assumptions C06_skeleton_countingWriter_Write.
+Print Assumptions C06_skeleton_countingReader_Read.
+Print Assumptions C06_skeleton_NBT.
+Print Assumptions C06_skeleton_Ary_WriteTo.
+Print Assumptions C06_skeleton_Ary_ReadFrom.
+Print Assumptions C06_skeleton_Array.
+Print Assumptions C06_skeleton_Opt_has.
+Print Assumptions C06_skeleton_Opt_WriteTo.
+Print Assumptions C06_skeleton_Opt_ReadFrom.
+Print Assumptions C06_skeleton_Option_WriteTo.
+Print Assumptions C06_skeleton_Option_ReadFrom.
+Print Assumptions C06_skeleton_OptionDecoder_ReadFrom.
+Print Assumptions C06_skeleton_OptionEncoder_WriteTo.
+Print Assumptions C06_skeleton_Tuple_WriteTo.
+Print Assumptions C06_skeleton_Tuple_ReadFrom.
+Print Assumptions C06_skeleton_CreateByteReader.
+Print Assumptions C06_skeleton_byteReaderWrapper_ReadByte.
+Print Assumptions C06_skeleton_Marshal.
+Print Assumptions C06_skeleton_Packet_Scan.
+Print Assumptions C06_skeleton_Builder_WriteField.
+Print Assumptions C06_skeleton_Builder_Packet.
+Print Assumptions C06_ary_read_is_skeleton.
+Print Assumptions C06_nbtfield_read_is_skeleton.
+Print Assumptions C06_option_read_is_skeleton.
+Print Assumptions C06_option_write_is_skeleton.
+Print Assumptions C06_opt_is_skeleton.
+Print Assumptions C06_ary_write_is_skeleton.
+Print Assumptions C06_scan_is_skeleton.
+Print Assumptions C06_marshal_is_skeleton.
+Print Assumptions C06_nbtfield_count.
+Print Assumptions C06_nbtfield_roundtrip.
+Print Assumptions C06_nbtfield_end.
+Print Assumptions C06_nbtfield_write_count.
